@@ -1,8 +1,9 @@
 """C04 -- next_call patterns are consumed strictly in declaration order across methods."""
 import collections
 from .. import cases as K
-from ..layer_a import Engine
+from ..layer_a import Engine, proj_default
 from ..runner import run_coexec, replay_coexec
+from ..tuple_part import TuplePart
 from .C03 import lower_bound
 
 MODULE = "Props.C04"
@@ -97,7 +98,8 @@ def engines(tier):
 
 def run(tier, seed):
     return run_coexec("C04", tier, seed, module=MODULE, theorems=THEOREMS, gen_cases=gen_cases,
-                      nontrivial=nontrivial, rule=RULE, engines=engines(tier), stats=stats)
+                      nontrivial=nontrivial, rule=RULE, engines=engines(tier), stats=stats,
+                      parts=[TuplePart("C04", proj_default, n_quick=30)])
 
 
 def replay(path):
